@@ -73,9 +73,12 @@ SITE_TABLE = [
     ("MRIModelEngine._forward_operator / _backward_operator", "nn/mri_models.py", "aOp / aStar", "A and A^H",
      "site_engine_fwd_sem, site_engine_bwd_sem", "direct call (duck-typed self), adjointness"),
     ("SSLMRIModelEngine / JSSLMRIModelEngine._do_iteration", "nn/ssl/mri_models.py", "hardDC", "y + (1 − M) F E x: sampled = data, unsampled = model",
-     "site_ssl_harddc_sem, site_jssl_harddc_sem", "_forward_operator(x, S, ~mask) on the real method"),
-    ("VSharpNetSSLEngine / VSharpNetJSSLEngine._do_iteration", "nn/vsharp/vsharp_engine.py", "hardDC", "y + (1 − M) F E x",
-     "site_vsharp_ssl_harddc0_sem, site_vsharp_ssl_harddc1_sem, site_vsharp_jssl_harddc0_sem", "as above"),
+     "site_ssl_harddc_sem, site_jssl_harddc_sem", "real _do_iteration in inference mode (duck-typed self)"),
+    ("VSharpNetSSLEngine._do_iteration (training and inference branches)", "nn/vsharp/vsharp_engine.py", "hardDC", "y + (1 − M) F E x",
+     "site_vsharp_ssl_harddc0_sem, site_vsharp_ssl_harddc1_sem", "real _do_iteration in inference mode (duck-typed self)"),
+    ("VSharpNetJSSLEngine._do_iteration", "nn/vsharp/vsharp_engine.py", "hardDC (training branch only)",
+     "y + (1 − M) F E x while training; DIFFERS in inference: returns |x| of the network output with NO data consistency "
+     "(VSharpNetSSLEngine applies it)", "site_vsharp_jssl_harddc0_sem", "bridge only"),
     ("VSharpNetEngine / VSharpNet3DEngine.forward_function", "nn/vsharp/vsharp_engine.py", "hardDC (padding inside)", "y + (1 − M) pad(F E x)",
      "site_vsharp_engine_harddc_sem, site_vsharp3d_engine_harddc_sem", "real forward_function (duck-typed self)"),
 ]
@@ -583,3 +586,59 @@ SITE_CHECKS = [
     ("operator-pairs", site_operator_pairs),
     ("vsharp-engines", site_vsharp_engine),
 ]
+
+
+class _StubModel:
+    """stands for the reconstruction network: returns fixed images (the data-consistency code around it is real)"""
+    training = False
+
+    def __init__(self, x):
+        self.x = x
+
+    def __call__(self, masked_kspace, sampling_mask, sensitivity_map):
+        return [self.x * 0.5, self.x]
+
+
+def site_ssl_engines(seed, centered, mask_kind="random"):
+    """`_do_iteration` of the four SSL engines in inference mode on a duck-typed self: the k-space they reconstruct from
+    (input of the final backward operator) must be y on the sampled and F E x on the unsampled positions"""
+    import direct.data.transforms as T
+    from direct.nn.mri_models import MRIModelEngine
+    from direct.nn.ssl.mri_models import JSSLMRIModelEngine, SSLMRIModelEngine
+    from direct.nn.vsharp.vsharp_engine import VSharpNetSSLEngine
+
+    fop, bop = real_ops(centered)
+    S, y, m, g = problem(seed, (1, 2, 6, 4), mask_kind)
+    x = torch.randn(1, 6, 4, 2, generator=g)
+    fe = fop(T.expand_operator(x, S, dim=1), dim=(2, 3))
+    fails, n = [], 0
+    # (VSharpNetJSSLEngine applies the data consistency only in its training branch; in inference it returns
+    #  |x| of the network output directly — recorded in SITE_TABLE, nothing to check here)
+    for tag, cls in (("ssl", SSLMRIModelEngine), ("jssl", JSSLMRIModelEngine), ("vsharp-ssl", VSharpNetSSLEngine)):
+        rec = Recorder(fop, bop)
+        me = _fake_self(rec.forward_operator, rec.backward_operator)
+        me.device = "cpu"
+        me.mixed_precision = False
+        me.model = _StubModel(x)
+        me.compute_sensitivity_map = lambda s_: s_
+        me.forward_function = lambda data: (x, None)
+        me._forward_operator = lambda *a, me=me: MRIModelEngine._forward_operator(me, *a)
+        me.compute_loss_on_data = lambda d, fns, data, oi, ok, *a: d
+        data = {"masked_kspace": y.clone(), "sampling_mask": m.clone(), "sensitivity_map": S.clone(), "target": torch.zeros(1, 6, 4),
+                "is_ssl": [False]}
+        with torch.no_grad():
+            cls._do_iteration(me, data, None, None)
+        bw = [e for e in rec.events if e["op"] == "bwd"]
+        n += 2
+        if not bw:
+            fails.append(_fail(f"site-{tag}-harddc", "no backward operator call observed"))
+            continue
+        ksp = bw[-1]["in"]
+        if not close(torch.where(m == 0, ZERO, ksp), y, tol=1e-6):
+            fails.append(_fail(f"site-{tag}-harddc", "data consistency changes sampled positions"))
+        if not close(torch.where(m == 0, ksp, ZERO), torch.where(m == 0, fe, ZERO), tol=1e-6):
+            fails.append(_fail(f"site-{tag}-harddc", "data consistency does not put F E x on the unsampled positions"))
+    return n, fails
+
+
+SITE_CHECKS.append(("ssl-engines", site_ssl_engines))
